@@ -2396,7 +2396,8 @@ fn cluster(seed: u64, malformed: bool, cov: &mut Coverage) -> Sim<'_> {
         batch_append: rng.chance(35),
         skip_bcast_commit: rng.chance(25),
         read_only_option: if check_quorum && rng.chance(40) { ReadOnlyOption::LeaseBased } else { ReadOnlyOption::Safe },
-        max_uncommitted_size: if rng.chance(55) { u64::MAX } else { max_size_per_msg.min(1 << 40).max(1) + rng.below(200) },
+        // 0 is a legal bound when max_size_per_msg is 0 too (Config::validate): every non-empty proposal but the first is refused
+        max_uncommitted_size: if max_size_per_msg == 0 && rng.chance(35) { 0 } else if rng.chance(55) { u64::MAX } else { max_size_per_msg.min(1 << 40).max(1) + rng.below(200) },
         max_committed_size_per_ready: if rng.chance(60) { u64::MAX } else { 30 + rng.below(100) },
         max_apply_unpersisted_log_limit: if rng.chance(80) { 0 } else { 1 + rng.below(4) },
         disable_proposal_forwarding: rng.chance(10),
